@@ -83,6 +83,9 @@ def genericTys (hasU hasN hasLt : Bool) : List Ty :=
    Ty.app "PhantomData" [tyT], .ptr false tyT, .ptr true tyT, Ty.app "Box" [.slice tyT],
    .path false [.mk "T" [], .mk "Assoc" []],
    .qpath tyT false [.mk "Tr" []] [.mk "Assoc" []],
+   -- a qualified path without a trait (`<T>::Assoc`, `<Vec<T>>::Item`): parenthesized in front of a where-predicate
+   .qpath tyT false [] [.mk "Assoc" []],
+   .qpath (Ty.app "Vec" [tyT]) false [] [.mk "Item" []],
    .qpath tyT true [.mk "core" [], .mk "iter" [], .mk "Iterator" []] [.mk "Item" []],
    .bareFn [tyT] none, .bareFn [] (some tyT), .tuple [tyT, Ty.simple "u8"],
    .path true [.mk "std" [], .mk "vec" [], .mk "Vec" [.ty tyT]],
@@ -151,6 +154,7 @@ def genBound (marker : Nat) : Gen (Option (List BoundArg)) := do
     (1, some [.pred (markerPred marker), .pred (.ty [] (Ty.app "Vec" [tyT]) [.trait false [] (Ty.simple "W1")]), .pred (.lt "'a" ["'static"])]),
     (1, some [.pred (.ty [] (Ty.app "Option" [tyT]) [.trait false [] (Ty.simple "W1")]), .ty tyT, .pred (markerPred marker), .dots]),
     (1, some [.pred (.lt "'a" ["'static"])]),
+    (1, some [.pred (.ty [] (.qpath tyT false [] [.mk "Assoc" []]) [.trait false [] (Ty.simple ("M" ++ toString marker))]), .dots]),
     -- an entry that is neither `..`, a predicate nor a type
     (1, some [.bad ["="]]),
     (1, some [.ty tyT, .bad ["1"], .dots]),
@@ -299,6 +303,7 @@ def tyContexts (hasLt : Bool) : List (Ty → Ty) :=
    fun t => .path false [.mk "Outer" [.ty t], .mk "Inner" []],
    fun t => .path true [.mk "m" [], .mk "Outer" [.ty t], .mk "Inner" [.lt "'static"]],
    fun t => .qpath t false [.mk "Tr" []] [.mk "Assoc" []],
+   fun t => .qpath t false [] [.mk "Assoc" []],
    fun t => .qpath t true [.mk "core" [], .mk "iter" [], .mk "Iterator" []] [.mk "Item" []],
    fun t => .qpath (Ty.simple "u8") false [.mk "Conv" [.ty t]] [.mk "Out" []],
    fun t => .qpath (Ty.simple "u8") true [.mk "m" [], .mk "Conv" [.ty t]] [.mk "Out" []],
